@@ -250,6 +250,7 @@ func TestC19Components(t *testing.T) {
 	ev := Ev("C19")
 	ev.SetRule("every registered tokenizer, token filter, char filter and analyzer instance (enumerated from the registry at run time) plus configured instances of the configurable types (regexp/exception tokenizers, ngram, edge_ngram, length, truncate, shingle, stop, dict_compound, elision, keyword_marker, normalize_unicode filters, regexp char filters, custom analyzers) applied to generated byte strings (mixed scripts, combining marks, ZWNJ, invalid UTF-8, HTML, empty, a 70 KiB token, random bytes): returns within 20 s without panic; tokenizers: 0<=Start<=End<=len(input), non-decreasing starts, positions >=1 and non-decreasing; " +
 		"highlight: generated texts under length-preserving analyzers on both engines, html/ansi/custom simple highlighters with fragment sizes 1..200: no panic, and for html each fragment minus separator/marks/escaping is a contiguous piece of the stored value whose marked spans are (unions of) matched term locations; direct highlighter calls with arbitrary locations (Start<=End, End may exceed the value) never panic; " +
+		"every rune: each code point of the BMP (thorough: up to U+2FFFF), alone and between two ASCII letters, through every component (the driver's shards split the range); " +
 		"script-aware inputs: text built from units = a base rune from the blocks of one script family (Japanese, Korean, Arabic/Persian, Indic, Latin/Greek/Cyrillic, multi-character-folding symbols among ASCII; block edges over-weighted) optionally followed by a modifier of that family (voiced marks, harakat/tatweel/joiners, matras, combining accents, apostrophes), every input through every component; " +
 		"non-trivial = input has a multi-byte or invalid sequence and the component produced >=2 tokens / the fragment holds >=2 marks")
 	comps := c19Setup(t)
